@@ -26,3 +26,29 @@ package ext
 // reader and the trailer object.
 //@ func ReadTrailer(t, r) err
 //@   modifies *, r.pos, r.avail, r.failed
+
+//@ func SkipTrailer(r) err
+//@   modifies r.pos, r.avail, r.failed, mem
+//@   allocates
+
+// skipRest (fixed length): on success exactly the unread remainder of the body has been taken off the
+// wire, so the next request starts at the first byte after the body. Chunked: a chunk-size line is only
+// parsed when no chunk data is pending.
+//@ func bodyStream.skipRest(rs) err
+//@   props C14
+//@   nosafety
+//@   replay-import errors
+//@   replay-import github.com/cloudwego/hertz/pkg/common/bytebufferpool
+//@   replay-decl type vcgoWire2 struct{ b []byte; pos int }; func (w *vcgoWire2) Peek(n int) ([]byte, error) { if w.pos+n > len(w.b) { return w.b[w.pos:], errors.New("EOF") }; return w.b[w.pos : w.pos+n], nil }; func (w *vcgoWire2) Skip(n int) error { if w.pos+n > len(w.b) { return errors.New("EOF") }; w.pos += n; return nil }; func (w *vcgoWire2) Release() error { return nil }; func (w *vcgoWire2) Len() int { return len(w.b) - w.pos }; func (w *vcgoWire2) ReadByte() (byte, error) { if w.pos >= len(w.b) { return 0, errors.New("EOF") }; w.pos++; return w.b[w.pos-1], nil }; func (w *vcgoWire2) ReadBinary(n int) ([]byte, error) { p, err := w.Peek(n); if err != nil { return nil, err }; w.pos += n; return append([]byte(nil), p...), nil }
+//@   replay-go w := &vcgoWire2{b: []byte("a\r\n0123456789\r\n0\r\n\r\nGET /next HTTP/1.1\r\n\r\n")}; rs := AcquireBodyStream(&bytebufferpool.ByteBuffer{}, w, nil, -1); buf := make([]byte, 3); rs.Read(buf); err := ReleaseBodyStream(rs); if err != nil || string(w.b[w.pos:]) != "GET /next HTTP/1.1\r\n\r\n" { fmt.Printf("VCGO-VIOLATED after reading 3 bytes of a 10-byte chunk, releasing the stream returned %v and left the wire at %q\n", err, string(w.b[w.pos:])) }
+//@   requires rs.contentLength >= 0 && rs.prefetchedBytes != nil ==> bsFixed(rs)
+//@   requires rs.reader != nil
+//@   requires rs.reader.avail >= 0
+//@   modifies *, rs.reader.pos, rs.reader.avail, rs.reader.failed
+//@   top-ensures old(rs.contentLength) >= 0 && old(rs.prefetchedBytes) != nil && err == nil ==> rs.reader.pos == old(rs.reader.pos) + old(rs.contentLength - ite(rs.offset > len(rs.prefetchedBytes.s), rs.offset, len(rs.prefetchedBytes.s)))
+//@   assert @C14 before ParseChunkSize: rs.chunkLeft == 0
+//@   loop 0:
+//@     invariant rs.chunkLeft == 0 && rs.reader != nil
+//@   loop 1:
+//@     invariant needSkipLen > 0 && rs.reader != nil && rs.reader.pos + needSkipLen == old(rs.reader.pos) + old(rs.contentLength - ite(rs.offset > len(rs.prefetchedBytes.s), rs.offset, len(rs.prefetchedBytes.s)))
+//@     invariant rs.reader.avail >= 0
